@@ -1181,9 +1181,12 @@ def _meanstress_cases(draw, tier):
             "R_goal": draw(st.sampled_from([-1.0, 0.0, 0.5, -3.0])), "layout": layout}
 
 
-def _named_index(names, rows):
+def _named_index(names, rows, range_index=False):
     if len(names) == 1:
-        return pd.Index([r[0] for r in rows], name=names[0])
+        keys = [r[0] for r in rows]
+        if range_index and keys == list(range(len(keys))):
+            return pd.RangeIndex(len(keys), name=names[0])
+        return pd.Index(keys, name=names[0])
     return pd.MultiIndex.from_tuples([tuple(r) for r in rows], names=names)
 
 
@@ -1246,14 +1249,17 @@ _CYC = [[2.0, 0.0], [2.0, 1.0], [1.0, -0.5], [3.0, 4.0], [2.0, -3.0], [4.0, 0.5]
 def _haigh_cases(draw, tier):
     """A frame of per-element diagram parameters on a generated element index and a collective."""
     kind = draw(st.sampled_from(["five_segment", "five_segment", "fkm_goodman"]))
-    nlev = draw(st.sampled_from([1, 2, 2, 2, 3]))
-    names = list(draw(st.permutations(["element_id", "x", "node_id", "part"])))[:nlev]
+    unnamed = draw(st.sampled_from(["no", "no", "no", "single", "single", "multi"]))
+    nlev = draw(st.sampled_from([1, 2, 2, 2, 3])) if unnamed == "no" else 1 if unnamed == "single" else 2
+    names = list(draw(st.permutations(["element_id", "x", "node_id", "part"])))[:nlev] if unnamed == "no" else [None] * nlev
     key_pools = [[1, 2, 3], [2, 5, 11], ["a", "b", "c"], ["b", "a", "z"], [10, 7, 30]]
+    if unnamed == "single":
+        key_pools = [[0, 1, 2, 3], [0, 1, 2, 3], [3, 7, 4, 1], ["a", "b", "c"]]      # 0..n-1 in order = the default RangeIndex
     levels = []
     for _ in range(nlev):
         pool = draw(st.sampled_from(key_pools))
-        cnt = draw(st.integers(1 if nlev > 1 else 2, 3 if nlev < 3 else 2))
-        levels.append(list(draw(st.permutations(pool)))[:cnt])
+        cnt = draw(st.integers(1 if nlev > 1 else 2, (4 if unnamed == "single" else 3) if nlev < 3 else 2))
+        levels.append(list(pool)[:cnt] if unnamed == "single" and draw(st.booleans()) else list(draw(st.permutations(pool)))[:cnt])
     rows = [list(t) for t in itertools.product(*levels)]
     if len(rows) > 2 and draw(st.integers(0, 3)) == 0:               # ragged
         del rows[draw(st.integers(0, len(rows) - 1))]
@@ -1280,6 +1286,8 @@ def _haigh_cases(draw, tier):
             vals.append([ms[0], ms[2]])
     cols = _FIVE_COLS if kind == "five_segment" else ["M", "M2"]
     clay = draw(st.sampled_from(["same_index", "same_index_shuffled", "scenario", "element_scenario", "scenario_element_shuffled"]))
+    if unnamed != "no":
+        clay = "scenario"       # unnamed levels are private to their operand: only a collective on levels of its own is unambiguous
     ns = draw(st.integers(1, 2))
     if clay == "same_index":
         cnames, crows = list(names), [list(r) for r in rows]
@@ -1295,7 +1303,7 @@ def _haigh_cases(draw, tier):
             crows = [[r[i] for i in perm] for r in draw(st.permutations(crows))]
     cvals = [_CYC[draw(st.integers(0, len(_CYC) - 1))] for _ in crows]
     return {"kind": kind, "order": order, "vary_R": vary_R, "cycles_layout": clay,
-            "diagram": {"names": names, "rows": rows, "columns": cols, "values": vals},
+            "diagram": {"names": names, "rows": rows, "columns": cols, "values": vals, "range_index": unnamed == "single" and draw(st.sampled_from([True, True, False]))},
             "cycles": {"names": cnames, "rows": crows, "values": cvals},
             "R_goal": draw(st.sampled_from([-1.0, 0.0, 0.5, -0.5]))}
 
@@ -1321,25 +1329,39 @@ def haigh_downstream(case, ctx):
     ctx.label("kind:" + kind, "order:" + case.get("order", "?"), "levels:%d" % len(d["names"]), "cycles:" + case.get("cycles_layout", "?"))
     if case.get("vary_R"):
         ctx.label("per_element_R12_R23")
-    frame = pd.DataFrame(d["values"], columns=d["columns"], index=_named_index(d["names"], d["rows"]), dtype=float)
+    frame = pd.DataFrame(d["values"], columns=d["columns"], index=_named_index(d["names"], d["rows"], d.get("range_index", False)), dtype=float)
     cycles = pd.DataFrame(c["values"], columns=["range", "mean"], index=_named_index(c["names"], c["rows"]), dtype=float)
     sf, sc = snapshot(frame), snapshot(cycles)
+    n_unnamed = d["names"].count(None)
+    ctx.label("element_index:" + ("named" if not n_unnamed else "unnamed_%s" % sf["index_type"]))
     drows = [tuple(r) for r in d["rows"]]
-    if len(drows) >= 2 and drows != sorted(drows, key=repr) or len(d["names"]) >= 2:
+    if len(drows) >= 2 and (drows != sorted(drows, key=repr) or len(d["names"]) >= 2 or n_unnamed):
         ctx.nontrivial()
     make = HaighDiagram.five_segment if kind == "five_segment" else HaighDiagram.fkm_goodman
-    hd = make(frame)
+    try:
+        hd = make(frame)
+    except AttributeError as e:
+        # two unnamed element levels: the validation groups the R intervals by 'all levels but R' using the placeholder 0 for every
+        # unnamed level and rejects the diagram cleanly - documented exception type of _validate
+        if n_unnamed >= 2 and "must not overlap" in str(e):
+            assert_unchanged(sf, frame, "diagram parameter frame")
+            ctx.tolerate("AttributeError: intervals must not overlap (element index with >= 2 unnamed levels)")
+            return
+        raise
     assert_unchanged(sf, frame, "diagram parameter frame")
     # (1) the diagram itself (the Series behind the accessor, read only)
     ser = hd._obj
     snames = list(ser.index.names)
-    if sorted(map(str, snames)) != sorted(d["names"] + ["R"]):
+    if sorted(map(repr, snames)) != sorted(map(repr, d["names"] + ["R"])):
         raise Violation("diagram levels %r, expected %r plus 'R'" % (snames, d["names"]), bucket="haigh:levels")
     want = {}
     for k, params in zip(drows, d["values"]):
         for iv, slope in _expected_segments(kind, params).items():
             want[k + (iv,)] = slope
-    pos = [snames.index(n) for n in d["names"] + ["R"]]
+    if n_unnamed:     # unnamed element levels keep their relative order (there is nothing else to identify them by)
+        pos = [i for i, n in enumerate(snames) if n is None] + [snames.index("R")]
+    else:
+        pos = [snames.index(n) for n in d["names"] + ["R"]]
     got = {}
     for r, v in zip(_rows_of(ser.index), _values_of(ser)):
         got[tuple(r[p] for p in pos)] = v[0]
@@ -1351,6 +1373,8 @@ def haigh_downstream(case, ctx):
             raise Violation("diagram entry for element %r, R segment %r is %r, the element's own slope is %r"
                             % (k[:-1], k[-1][1:], got[k], want[k]), bucket="haigh:slope")
     # (2) transformation, element by element
+    if n_unnamed >= 2:
+        return          # levels cannot be told apart by name; only reached if the diagram was accepted
     Rg = case["R_goal"]
     res = hd.transform(cycles, Rg)
     assert_unchanged(sc, cycles, "collective")
